@@ -8,7 +8,19 @@ def main():
     vlib.ensure_overrides()
     bad = 0
     mods = sorted(glob.glob(os.path.join(vlib.SPEC, "*.tla")))
-    procs = [(m, subprocess.Popen(["java", "-cp", vlib.TLA_CP, "tla2sany.SANY", m], cwd=vlib.SPEC, stdout=subprocess.PIPE, stderr=subprocess.STDOUT, text=True)) for m in mods]
+    # the modules proved with TLAPS import its standard module: parsed with tlapm's library on SANY's path (they are checked by tlapm in the
+    # runs of C02 / C06 / C11-C14; if the library is not where it is expected they are only listed here)
+    tlaps_lib = os.environ.get("TLAPS_STDLIB", "/opt/veriftools/tlapm/lib/tlapm/stdlib")
+    def uses_tlaps(m):
+        return "TLAPS" in open(m).read().split("=====")[0].split("EXTENDS", 1)[-1].split("\n", 1)[0]
+    proof_mods = [m for m in mods if uses_tlaps(m)]
+    if proof_mods and not os.path.exists(os.path.join(tlaps_lib, "TLAPS.tla")):
+        print("note: TLAPS standard module not found; not parsed here:", [os.path.basename(m) for m in proof_mods])
+        mods = [m for m in mods if m not in proof_mods]; proof_mods = []
+    def sany(m):
+        extra = ["-DTLA-Library=" + tlaps_lib] if m in proof_mods else []
+        return subprocess.Popen(["java"] + extra + ["-cp", vlib.TLA_CP, "tla2sany.SANY", m], cwd=vlib.SPEC, stdout=subprocess.PIPE, stderr=subprocess.STDOUT, text=True)
+    procs = [(m, sany(m)) for m in mods]
     for m, p in procs:
         out, _ = p.communicate()
         if p.returncode != 0 or "Fatal" in out or "*** Errors" in out or "Abort" in out:
